@@ -2,7 +2,9 @@
 
 1. TLC (specs/Diff.tla): the oracle Report(a, b) = {site : symbolic target differs}; checked to be exact
    and layout independent for every (site kind x original class x redirection x pair of layouts); a
-   byte-wise oracle is shown to be wrong (anti-vacuity).  TLC exports the 32 cases with the verdict.
+   byte-wise oracle and an oracle that rounds GOT addresses down to their cell are shown to be wrong
+   (anti-vacuity).  TLC exports the 64 cases with the verdict (incl. GOT-load displacements shifted by
+   -7..+8 bytes: an address inside a GOT cell designates no symbol).
 2. Binding: generated programs (functions and data in their own sections, spread over two objects; sites:
    call rel32, RIP-relative lea, RIP-relative load, GOT slot, absolute data pointer) are linked by GNU ld
    (reference) and by wild (WILD_WRITE_LAYOUT=1).
@@ -26,7 +28,7 @@ META = {
     "ready": True,
     "level": "exploration",
     "technique": "TLA+ oracle (symbolic-target comparison, TLC-checked exact and layout independent) and a TLC-enumerated corruption grammar, replayed into the real linker-diff on generated programs linked by GNU ld and wild with exactly one relocated site patched",
-    "level_text": "TLC enumerates site kind (call rel32, RIP-relative lea, RIP-relative load, GOT slot, absolute data pointer) x class of the original target x redirection (none, other function, other datum, same symbol+8) and states the expected verdict; each case is applied to several generated x86-64 programs: the wild output (with its layout file) is compared by the real linker-diff with itself and a byte-identical copy (must be quiet), and, with exactly one site patched to designate the redirected target, with GNU ld's output of the same program (must report) - counted only when the unpatched pair was quiet.",
+    "level_text": "TLC enumerates site kind (call rel32, RIP-relative lea, RIP-relative load, GOT slot, absolute data pointer) x class of the original target x redirection (none, other function, other datum, same symbol+8; for GOT-indirect loads: the displacement shifted by -7..-1 and +1..+8 bytes, i.e. into the middle of a GOT cell or the neighbouring cell) and states the expected verdict; each case is applied to several generated x86-64 programs: the wild output (with its layout file) is compared by the real linker-diff with itself and a byte-identical copy (must be quiet), and, with exactly one site patched to designate the redirected target, with GNU ld's output of the same program (must report) - counted only when the unpatched pair was quiet.",
     "level_note": "Thin use of TLA+: the specification is a two-line oracle plus the corruption enumerator; the strength of the check is the systematic single-site corruption of real binaries. x86-64 static non-PIE executables only; relaxed/TLS/PLT/jump-table sites and other architectures are not covered.",
     "engine": "tlc",
 }
@@ -125,6 +127,10 @@ def patch(binary_bytes, elf, site, new_target_va):
         struct.pack_into("<i", b, fo, new_target_va + site["addend"] - p)
     elif site["kind"] == "absptr":
         struct.pack_into("<Q", b, fo, new_target_va)
+    elif site["kind"] == "gotload":
+        # the instruction now designates the address `shift` bytes away from its GOT cell
+        disp = struct.unpack_from("<i", b, fo)[0]
+        struct.pack_into("<i", b, fo, disp + new_target_va)
     elif site["kind"] == "gotslot":
         disp = struct.unpack_from("<i", b, fo)[0]
         slot = p - site["addend"] + disp
@@ -135,6 +141,9 @@ def patch(binary_bytes, elf, site, new_target_va):
 
 def new_target(case, site, info, elf, rng):
     t = site["target"]
+    if case["kind"] == "gotload":
+        # for a GOT-load site the "new target" is the byte shift applied to the displacement
+        return case["shift"], (f"GOT cell of {t} {case['shift']:+d} bytes" if case["shift"] else "unchanged")
     if case["redir"] == "other-function":
         c = [f for f in info["funcs"] if f != t and elf.symbol(f)]
         return (elf.symbol(rng.choice(c))["value"], "other function") if c else (None, "")
@@ -160,14 +169,18 @@ def run(ctx):
     if not r.ok:
         raise ToolError(f"Diff model check failed: {r.violated} {r.error_text}\n{r.trace_text[:1500]}")
     cases = r.records
-    if len(cases) != 32:
-        raise ToolError(f"expected 32 exported cases, got {len(cases)}")
+    if len(cases) != 64:
+        raise ToolError(f"expected 64 exported cases, got {len(cases)}")
+    gr = tlc.run_tlc("Diff", "mc/Diff_gotround.cfg", workers=2, timeout=300, coverage=False)
+    if gr.ok or gr.violated != "RoundedOracleExact":
+        raise ToolError("anti-vacuity: the oracle that rounds GOT addresses down to their cell was not rejected by TLC")
     bw = tlc.run_tlc("Diff", "mc/Diff_bytewise.cfg", workers=2, timeout=300, coverage=False)
     if bw.ok or bw.violated != "BytewiseQuiet":
         raise ToolError("anti-vacuity: the byte-wise oracle was not rejected by TLC")
     cov["states"], cov["transitions"] = r.distinct, r.generated
     cov["tlc_runs"] = [{"cfg": "mc/Diff_quick.cfg", **r.summary()},
-                       {"cfg": "mc/Diff_bytewise.cfg", "expected_violation": bw.violated}]
+                       {"cfg": "mc/Diff_bytewise.cfg", "expected_violation": bw.violated},
+                       {"cfg": "mc/Diff_gotround.cfg", "expected_violation": gr.violated}]
     wild = build_wild()
     tool = build_linker_diff()
     n_prog = 4 if ctx.quick else 30
@@ -229,7 +242,8 @@ def run(ctx):
             sites = [s for s in sites_of(objs) if elf.symbol(s["holder"]) and elf.symbol(s["target"])]
             raw = (sub / "out").read_bytes()
             for ci, case in enumerate(cases):
-                cands = [s for s in sites if s["kind"] == case["kind"] and s["tclass"] == case["orig"]]
+                skind = "gotslot" if case["kind"] == "gotload" else case["kind"]      # same instruction, other corruption
+                cands = [dict(s, kind=case["kind"]) for s in sites if s["kind"] == skind and s["tclass"] == case["orig"]]
                 if not cands:
                     detect["not_assessable"] += 1
                     continue
@@ -265,7 +279,7 @@ def run(ctx):
             else:
                 by_case[ck]["bad"] += 1
                 meta = {"cmd": f"linker-diff --wild-defaults --ref ref mut{ci}", "case": case, "site": site,
-                        "new_target": f"{desc} @ {va:#x}", "expected": expect, "observed": st,
+                        "new_target": f"{desc} @ {va:#x}" if case["kind"] != "gotload" else desc, "expected": expect, "observed": st,
                         "stdout": rr.out[-1500:], "stderr": rr.err[-500:]}
                 if st == "error":
                     key = f"error:{ck}"
@@ -281,7 +295,8 @@ def run(ctx):
                                    lambda sub=sub, ci=ci, meta=meta: save_replay(PROP, f"{sub.name}-mut{ci}", sub, meta=meta))
             if len(cov["samples"]) < 6 and case["redir"] != "none" and len(cov["samples"]) % 2 == (0 if st == expect else 1) or \
                     (len(cov["samples"]) < 3):
-                cov["samples"].append({"program": sub.name, "case": case, "site": site, "new_target": f"{desc} @ {va:#x}",
+                cov["samples"].append({"program": sub.name, "case": case, "site": site,
+                                       "new_target": f"{desc} @ {va:#x}" if case["kind"] != "gotload" else desc,
                                        "linker_diff": st, "report_head": rr.out[:300]})
 
         # binding demonstration: flip the expectation of one case -> the comparison must notice
